@@ -207,7 +207,9 @@ class LinearSuite:
             step(i, op)
         if st["bad"] and self.nviol < 3:
             i, v = st["bad"]
-            ctx.violation({"width": width, "depth": depth, "program": prog_json(prog[:i + 1]), "failed": v,
+            small, v2 = self.shrink(width, depth, alphabet, nslots, prog[:i + 1], pred)
+            ctx.violation({"width": width, "depth": depth, "program": prog_json(small), "failed": v2 or v,
+                           "original_program_length": i + 1,
                            "bucket_map": {str(list(k)): c for k, c in bm.items()}}, self.what)
             self.nviol += 1
         he = [(s.hist, snapshot(s.sk, universe)) for s in slots]
@@ -221,6 +223,45 @@ class LinearSuite:
         ctx.count("len<=5" if len(prog) <= 5 else "len<=15" if len(prog) <= 15 else "len>15")
         ctx.count(f"width={width}" if width <= 4 else "width>4")
         return slots, bm, universe
+
+    def _fails(self, width, depth, alphabet, nslots, prog, pred):
+        """re-run a program on fresh sketches; return the predicate's failure dict or None"""
+        from sketchnu.countmin import CountMinLinear
+        universe = universe_of(alphabet, prog)
+        mk = lambda: CountMinLinear(width, depth)
+        bm = probe_buckets(mk, universe, depth)
+        slots = [Slot(mk(), width, depth) for _ in range(nslots)]
+        for i, op in enumerate(prog):
+            s = slots[op[1]]
+            before = snapshot(s.sk, universe)
+            other_before = snapshot(slots[op[2]].sk, universe) if op[0] == "merge" else None
+            try:
+                apply_op(s, op, slots, self.ctx.dir)
+            except Exception:
+                return None
+            after = snapshot(s.sk, universe)
+            v = pred(i, op, s, before, after, bm, universe, {"other_before": other_before, "other_after": None})
+            if v:
+                return v
+        return None
+
+    def shrink(self, width, depth, alphabet, nslots, prog, pred):
+        """greedy delta debugging on the op list: drop ops while the predicate still fails"""
+        best, bestv = list(prog), None
+        changed = True
+        rounds = 0
+        while changed and rounds < 4:
+            changed = False
+            rounds += 1
+            i = 0
+            while i < len(best):
+                cand = best[:i] + best[i + 1:]
+                v = self._fails(width, depth, alphabet, nslots, cand, pred) if cand else None
+                if v:
+                    best, bestv, changed = cand, v, True
+                else:
+                    i += 1
+        return best, bestv
 
     def finish(self, shard=60):
         ctx = self.ctx
